@@ -1,6 +1,7 @@
 (** C16 - effective configuration = user settings over packaged defaults; invalid rejected.
 
-    Part A (merge): statements about the hand-transcribed model [update_config] (JsonModel.v),
+    Part A (merge): statements about the hand-transcribed model [update_config] (JsonModel.v, code after
+    the repair e564612),
     proved in Json.v by structural induction, for EVERY enumeration order of the key set.
     Part B (validation): re-proved on every run against Gen_schema.v / Gen_defaults.v, which are
     regenerated from cij/data/schema/config.schema.json, cij/data/default/settings.yaml and
@@ -16,9 +17,18 @@ Local Open Scope string_scope.
 
 (** [key_order ord]: ord enumerates each key of the list once, in any order (Python set iteration). *)
 
-(** A1. merge_spec.  Whenever the merge returns (equivalently: no user dict meets a non-dict default),
-    the leaves of the result are exactly the user's leaves, at every depth, plus the default leaves
-    the user says nothing about; ... *)
+(** A0. merge_total, at full strength: on EVERY pair of dicts (any nesting, any clash of dict and
+    non-dict values in either direction) the merge returns.  ([None] remains only for a non-dict
+    ARGUMENT, where Python raises AttributeError on `.keys()`.) *)
+Theorem merge_total : forall ord, key_order ord -> forall u d, is_obj u = true -> is_obj d = true ->
+  exists r, update_config ord u d = Some r.
+Proof. intros ord H. exact (merge_total_l ord H). Qed.
+Print Assumptions merge_total.
+
+(** A1. merge_spec, for all pairs of dicts, no side condition.  The leaves (non-dict values) of the
+    result are exactly the user's leaves, at every depth - a user subtree given where the default
+    holds a non-dict value is kept whole - plus the default leaves the user says nothing about
+    ([unspecified u p]: walking down p in u falls off at a dict that lacks the next key); ... *)
 Theorem merge_spec_leaves : forall ord, key_order ord -> forall u d r, update_config ord u d = Some r ->
   forall p v, leaf_at r p v <-> leaf_at u p v \/ (leaf_at d p v /\ unspecified u p).
 Proof. intros ord H u d r Hu p v. exact (merge_leaves_l ord H p u d r v Hu). Qed.
@@ -36,16 +46,6 @@ Theorem merge_spec_no_other_keys : forall ord, key_order ord -> forall u d r, up
   forall p x, get_path p r = Some x -> get_path p u <> None \/ get_path p d <> None.
 Proof. intros ord H u d r Hu p x. exact (merge_no_other_keys_l ord H p u d r x Hu). Qed.
 Print Assumptions merge_spec_no_other_keys.
-
-(** A2. The merge returns exactly on the clash-free pairs (executable predicate [no_clash]). *)
-Theorem merge_defined_iff : forall ord, key_order ord -> forall u d, wf u = true ->
-  (no_clash u d = true <-> exists r, update_config ord u d = Some r).
-Proof.
-  intros ord H u d Hw. split.
-  - exact (merge_defined_l ord H u d).
-  - intros [r Hr]. exact (merge_defined_only_if_l ord H u d r Hw Hr).
-Qed.
-Print Assumptions merge_defined_iff.
 
 (** A3. Idempotence, and the two identities ([jeq]: equality of trees with dicts as finite maps). *)
 Theorem merge_idempotent : forall ord, key_order ord -> forall u d r, update_config ord u d = Some r ->
@@ -69,25 +69,35 @@ Print Assumptions merge_order_independent.
 Example key_orders_exist : key_order dedup /\ key_order (fun l => rev (dedup l)).
 Proof. split; [exact key_order_dedup | exact key_order_rev]. Qed.
 
-(** A5. merge_total is REFUTED: on well-formed nested dictionaries the merge is not total
-    ({a:{b:1}} over {a:2}: AttributeError in Python) - defect D11 of the pinned tree. *)
-Theorem merge_total_refuted :
+(** A5. HISTORY: before the repair e564612 (defect D11) the merge was not total: {a:{b:1}} over {a:2}
+    raised AttributeError; the repaired function keeps the user's subtree on that input. *)
+Theorem merge_total_refuted_before_fix :
   exists u d, wf u = true /\ wf d = true /\ is_obj u = true /\ is_obj d = true /\
-              forall ord, key_order ord -> update_config ord u d = None.
-Proof. exact merge_total_refuted_l. Qed.
-Print Assumptions merge_total_refuted.
-(** ... and with the packaged defaults a configuration that VALIDATES is enough to hit it. *)
+              update_config_before_fix dedup u d = None /\ update_config dedup u d = Some u.
+Proof. exact merge_total_refuted_before_fix_l. Qed.
+Print Assumptions merge_total_refuted_before_fix.
+
+(** the effective configuration of every VALID configuration exists (with the packaged defaults), and the
+    former D11 witness - valid, with a dict where the default holds a list - keeps the user's subtree *)
+Theorem apply_default_total : forall u, is_obj u = true -> exists r, apply_default_config default_settings u = Some r.
+Proof.
+  intros u Hu. apply (merge_total_l dedup key_order_dedup u default_settings Hu). vm_compute. reflexivity.
+Qed.
+Print Assumptions apply_default_total.
 Definition d11_valid_config : json :=
   JObj [("qha", JObj []); ("elast", JObj []); ("output", JObj [("pressure_base", JObj [("cij", JBool true)])])].
-Theorem apply_default_total_refuted :
-  exists u, wf u = true /\ validate definitions root u = true /\ apply_default_config default_settings u = None.
-Proof. exists d11_valid_config. vm_compute. repeat split. Qed.
-Print Assumptions apply_default_total_refuted.
+Example former_d11_witness_merges :
+  validate definitions root d11_valid_config = true /\
+  match apply_default_config default_settings d11_valid_config with
+  | Some r => get_path ["output"; "pressure_base"; "cij"] r = Some (JBool true)
+  | None => False
+  end.
+Proof. vm_compute. split; reflexivity. Qed.
 
-(** non-vacuity of A1-A3: a clash-free nested pair, and the packaged files themselves *)
-Example merge_hypotheses_satisfiable :
-  no_clash ex_user ex_default = true /\
-  forallb (fun e => no_clash (snd e) default_settings && wf (snd e)) examples = true.
+(** illustration: a nested pair with clashes in both directions, and the packaged files *)
+Example merge_examples :
+  ojeqb (update_config dedup ex_user ex_default) (update_config (fun l => rev (dedup l)) ex_user ex_default) = true /\
+  forallb (fun e => wf (snd e)) examples = true.
 Proof. vm_compute. split; reflexivity. Qed.
 
 (* ------------------------------------------------------------------------------------------ *)
